@@ -58,8 +58,8 @@ type c06Group struct {
 // c06Stats records which constructs a string uses.
 type c06Stats struct {
 	Groups, Tight, Negs, Ors, Cases, Types, Quoted, Escapes int
-	Depth                                                  int
-	Labels                                                 map[string]bool
+	Depth                                                   int
+	Labels                                                  map[string]bool
 }
 
 type c06Reject struct{ why string }
@@ -446,11 +446,11 @@ type c06Interp struct {
 // c06Flags says which silent points of the document a string touches.
 type c06Flags struct {
 	usesBare, usesRegexField, usesMeta, usesAnchor bool
-	escUpperOnly                                    bool // an auto-mode pattern whose only upper-case letters are escape classes (\S \W \D \B …), or inline flags
-	nonASCIIUpperAuto                               bool // an auto-mode pattern with a non-ASCII upper-case letter and no ASCII one
-	wordClassAuto                                   bool // an auto-mode pattern with \w and no ASCII upper-case letter
-	invalid                                         error // a pattern the standard library does not compile
-	autoUpper, autoLower                            bool  // auto-mode patterns with / without upper-case letters
+	escUpperOnly                                   bool  // an auto-mode pattern whose only upper-case letters are escape classes (\S \W \D \B …), or inline flags
+	nonASCIIUpperAuto                              bool  // an auto-mode pattern with a non-ASCII upper-case letter and no ASCII one
+	wordClassAuto                                  bool  // an auto-mode pattern with \w and no ASCII upper-case letter
+	invalid                                        error // a pattern the standard library does not compile
+	autoUpper, autoLower                           bool  // auto-mode patterns with / without upper-case letters
 }
 
 // c06InlineFlags matches (?i) (?s: … but not (?: and (?P<.
@@ -739,10 +739,10 @@ func c06SameSet(a, b map[string]bool) bool {
 }
 
 type c06Oracle struct {
-	fl          c06Flags
-	want        map[string]bool
-	ambiguous   string          // non-empty: the document does not decide this string on this corpus
-	alts        []c06Alt // results under the deviating case:auto rules of the known findings
+	fl        c06Flags
+	want      map[string]bool
+	ambiguous string   // non-empty: the document does not decide this string on this corpus
+	alts      []c06Alt // results under the deviating case:auto rules of the known findings
 }
 
 type c06Alt struct {
